@@ -1,6 +1,6 @@
 import Goyang.Lemmas.IncludeRun
-import Goyang.Lemmas.IncludeBind
-import Goyang.Lemmas.IncludeLink
+import Goyang.Lemmas.IncludeVisibleN
+import Goyang.Lemmas.IncludeLinkN
 import Goyang.Props.C06
 /-
 C13 (third sentence), part 3b: the two instances of `World` — the unsplit registry against itself,
@@ -194,7 +194,7 @@ theorem Ws_ok (ht : TextOK s) (hr : RegsOK s R R') (hl : LinkOK s R (linkAll R).
       rw [h1]
       unfold lkOf
       rw [List.dropLast_concat]
-      exact IncludeBind.bind_part s R R' _ _ ht hr hl hv r₁ hP inner u.arg
+      exact IncludeVisibleN.bind_partN s R R' _ _ ht hr hl hv r₁ hP inner u.arg
     · rcases chain_split s₂ hwf.2 with ⟨_, h2⟩ | ⟨inner, rfl⟩
       · have := (hr.R_modules_only r₂ hx).1
         rw [← h2, hu] at this
@@ -208,7 +208,7 @@ theorem Ws_ok (ht : TextOK s) (hr : RegsOK s R R') (hl : LinkOK s R (linkAll R).
         rw [h1]
         unfold lkOf
         rw [List.dropLast_concat]
-        exact IncludeBind.bind_other s R R' _ _ ht hr hl hv r₂ hx hne inner u.arg
+        exact IncludeVisibleN.bind_otherN s R R' _ _ ht hr hl hv r₂ hx hne inner u.arg
   lk_kw := lkOf_kw R _
   pos := hpos
 
